@@ -9,20 +9,20 @@ import (
 func TestRtsp(t *testing.T) {
 	pbt.Run(t, pbt.Spec[RtspCase]{
 		ID: "C07", Name: "rtsp", Gen: genRtsp, Run: runRtsp, Classify: classifyRtsp, Isolate: true,
-		Quick: 700, Thorough: 2200,
+		Quick: 500, Thorough: 2200,
 	})
 }
 
 func TestGb28181(t *testing.T) {
 	pbt.Run(t, pbt.Spec[GbCase]{
 		ID: "C07", Name: "gb28181", Gen: genGb, Run: runGb, Classify: classifyGb,
-		Quick: 600, Thorough: 1800, Isolate: true,
+		Quick: 300, Thorough: 1800, Isolate: true,
 	})
 }
 
 func TestCustomize(t *testing.T) {
 	pbt.Run(t, pbt.Spec[CustCase]{
 		ID: "C07", Name: "customize", Gen: genCust, Run: runCust, Classify: classifyCust,
-		Quick: 700, Thorough: 2400,
+		Quick: 500, Thorough: 2400,
 	})
 }
